@@ -2,7 +2,7 @@
 #include "work_sizes.h"
 extern int_t p@p@gstrf_WorkInit(int_t, int_t, int_t **, @T@ **);
 /* ghosts: pre-state of the file-static user stack, misalignment of the caller's buffer */
-int_t g_size0, g_used0, g_top10, g_top20, g_skew, g_isz, g_dsz;
+int_t g_size0, g_used0, g_top10, g_top20, g_skew, g_isz, g_dsz, g_users0;
 /* inputs */
 int_t in_n, in_w, in_maxsuper, in_rowblk; int_t *in_iworkptr; @T@ *in_dworkptr; char in_work[WCAP];
 int_t sp_ienv(int_t ispec) { int_t r; if (ispec == 3) return in_maxsuper; if (ispec == 4) return in_rowblk; return r; }
@@ -15,9 +15,8 @@ void h_work_init_user(void) {
     /* both blocks are usable memory of the caller's buffer */
     in_iworkptr[0] = 0; in_iworkptr[ISIZE_INTS(in_n, in_w) - 1] = 0;
     in_dworkptr[DSIZE_REALS(in_n, in_w, in_maxsuper, in_rowblk) - 1] = in_dworkptr[0];
-    if (((g_top20 + g_skew) & 7) != 0) __CPROVER_assert(0, "canary: alignment fix-up taken");
+    if (((g_top20 + g_skew) & 7) != 0) __CPROVER_assert(0, "canary: block not aligned, pointer aligned inside it");
   }
-  if (g_ret != 0 && in_iworkptr == 0) __CPROVER_assert(0, "canary: first request does not fit");
-  if (g_ret != 0 && in_iworkptr != 0) __CPROVER_assert(0, "canary: second request does not fit");
-  if (g_ret != 0 && in_iworkptr != 0 && g_dsz + g_used0 + g_isz < g_size0) __CPROVER_assert(0, "canary: block fits but its alignment shift does not -> reported as failure");
+  if (g_ret != 0) __CPROVER_assert(0, "canary: the blocks do not fit");
+  if (g_ret == 0 && g_users0 == 2) __CPROVER_assert(0, "canary: third holder of TAIL blocks");
 }
